@@ -197,3 +197,43 @@ def two_agg_pipeline(n, shard_index=0, num_shards=1):
 def vpar(x):
   """One-row batch with two columns: the value + 100 and its parity (the slicing feature)."""
   return [x + 100], [x % 2]
+
+
+# ---- tasks whose completion the harness schedules (AsCompleted.tla replays): attempt k of task t blocks until
+# ---- GATES[(t, k)] opens and then answers as OUTCOMES[(t, k)] says ("ok" | "timeout")
+GATES = {}
+OUTCOMES = {}
+STARTED = {}
+ATTEMPTS = {}
+_GLOCK = _threading.Lock()
+
+
+def gates_reset():
+  with _GLOCK:
+    for ev in GATES.values():
+      ev.set()
+    GATES.clear()
+    OUTCOMES.clear()
+    STARTED.clear()
+    ATTEMPTS.clear()
+
+
+def gate(t, k):
+  with _GLOCK:
+    return GATES.setdefault((t, k), _threading.Event())
+
+
+def started(t, k):
+  with _GLOCK:
+    return STARTED.setdefault((t, k), _threading.Event())
+
+
+def scheduled_task(t):
+  from harness import fakecourier
+  with _GLOCK:
+    k = ATTEMPTS[t] = ATTEMPTS.get(t, 0) + 1
+  started(t, k).set()
+  gate(t, k).wait(20)
+  if OUTCOMES.get((t, k), 'ok') == 'timeout':
+    raise fakecourier.DeadlineExceeded()
+  return 100 + t
